@@ -103,11 +103,15 @@ CLAIMED = {
     'C19': dict(
         text='Theorems over ALL token trees and all configurations (depth, omit_title, arbitrary filter predicates): the headings TocRenderer collects '
              'are exactly the qualifying headings in document order (rendering order = document order proved), each with its level and, for plain-word '
-             'titles, exactly its text (strip_tags model of the tag-stripping regex). Model tied by X-toc on generated outlines and spec-derived texts. '
-             'PARTIAL: nesting of the rebuilt list is decided by the oracle on the implementation only.',
+             'titles, exactly its text (strip_tags model of the tag-stripping regex). NESTING: theorem over ALL heading lists that form an outline (first heading '
+             'at the shallowest level, never deepening by more than one) with plain titles - any number of headings, any depth: the lines TocRenderer.toc writes '
+             'tokenize (model of block_token.tokenize, with a depth fuel proved sufficient) to exactly one list nested as the forest the outline denotes '
+             '(flatten (forest_of hs) = hs); proved from a new unbounded law for tight nested bullet lists (paragraph interrupted by the sub-list, items ended by '
+             'the next sibling marker, indented marker lines evaluated through the regex engine). Model tied by X-toc on generated outlines and spec-derived texts, '
+             'now including the token tree of r.toc itself.',
         note='Trusted: Coq kernel, extraction, hand-written model of render_heading/parse_rendered_heading (strip_tags differential-tested against re.sub), '
-             'HTML model of C08, outline generator. Known findings: kf_toc_empty, kf_setext_in_quote; one fix: commit (indent base).',
-        technique='Coq proof (induction over token trees) + extracted-model correspondence; nesting clause by generator-oracle only',
+             'HTML model of C08, parser model (correspondence-checked), outline generator. Titles outside the computable hypothesis titles_okb (inline markup, leading digits or marker characters) are decided by the oracle only. Known findings: kf_toc_empty, kf_setext_in_quote; one fix: commit (indent base).',
+        technique='Coq proof (induction over token trees; induction on nesting depth and sibling lists over the block tokenizer model for the nesting clause) + extracted-model correspondence + generator oracle',
         design='5/C19'),
     'C15': dict(
         text='Theorems for ALL texts: with only \\n as terminator the line list Document.__init__ prepares is the same for a string, a file object and '
